@@ -128,6 +128,9 @@ func (r *run) callSSA(fn *ssa.Function, args []Value, env []Value) Value {
 		r.initOK = nil
 	}
 	if fn.Parent() == nil {
+		if sub, ok := r.eng.Subst[name]; ok && sub != fn {
+			return r.callSSA(sub, args, nil)
+		}
 		if in, ok := r.eng.Intrinsics[name]; ok {
 			return in(r, nil, args)
 		}
